@@ -2,8 +2,8 @@ package rules
 
 import (
 	"go/token"
-	"sort"
 	"go/types"
+	"sort"
 
 	"golang.org/x/tools/go/ssa"
 
@@ -400,7 +400,11 @@ func (c *Ctx) c08Cap(pm *pairModel) {
 					continue
 				}
 				eng.EachInstr(a.fn, func(in ssa.Instruction) {
-					if call, ok := in.(*ssa.Call); ok && eng.StaticCallee(call.Common()) == fn && eng.Dominates(call, a.in) {
+					call, ok := in.(*ssa.Call)
+					if !ok || !eng.Dominates(call, a.in) {
+						return
+					}
+					if g := eng.StaticCallee(call.Common()); g == fn || g != nil && eng.FuncPkgPath(g) == eng.FuncPkgPath(fn) && p.SyncReach(g)[fn] {
 						before = true
 					}
 				})
